@@ -35,7 +35,7 @@ def strategy(tier):
     @st.composite
     def cases(draw):
         spec, focus = draw(gen.specs_and_focus(opts, 6))
-        ra = draw(gen.recipes(spec, max_rows=12, reload_ok=False, focus=focus))
+        ra = draw(gen.recipes(spec, max_rows=12, reload_ok=True, focus=focus))
         rb = draw(gen.recipes(spec, max_rows=12, reload_ok=True, focus=focus))
         xa, _ = draw(gen.streams(spec, max_rows=5, focus=focus))
         xb, _ = draw(gen.streams(spec, max_rows=5, focus=focus))
@@ -69,9 +69,10 @@ def check(case):
 
     # continuation
     b_mutable = not case["b"].get("reload")
-    for row, w in case["more_a"]:
-        a.fill(row, w)
-        ref.fill(row, w)
+    if not case["a"].get("reload"):  # an immutable left operand can be merged into, but not filled
+        for row, w in case["more_a"]:
+            a.fill(row, w)
+            ref.fill(row, w)
     if b_mutable:
         twin = states.realize(spec, case["b"])
         for row, w in case["more_b"]:
